@@ -25,6 +25,16 @@
    FixSkipLine = FALSE transcribes the pinned skip_line (loop condition
    inverted: nothing is skipped, D12) and is the sensitivity control.
 
+   The directives that do not take part in the selection — #line, #pragma,
+   the null directive `#`, and #error (in skipped groups only: in a processed
+   group it is a diagnostic, C13) — are lines of the alphabet as well: in
+   Level A they change nothing in any state of the group stack.  Level I:
+   #pragma and `#` are no-ops of preprocess2; read_line_marker macro-replaces
+   its operands — with FixLineInGroup = FALSE through preprocess(), whose
+   final "unterminated conditional directive" test sees the conditionals that
+   are open AROUND the directive and rejects the file (the tree before the
+   repair; second sensitivity control), with TRUE through preprocess2().
+
    With Emit the spec is a test generator: one behaviour per transition of the
    complete state graph (shortest history + the line + every one-line
    extension), see harness/c10.py.                                          *)
@@ -32,6 +42,7 @@ EXTENDS Integers, Sequences, SequencesExt, FiniteSets, TLC, Json, CSV, IOUtils
 
 CONSTANTS MaxDepth,      \* nesting bound
           FixSkipLine,   \* TRUE: skip_line skips the rest of the line; FALSE: pinned tree
+          FixLineInGroup, \* TRUE: read_line_marker expands its operands with preprocess2; FALSE: with preprocess (rejects inside an open conditional)
           Emit, Look
 
 (* ---- the line alphabet ------------------------------------------------- *)
@@ -40,7 +51,9 @@ L(k, a, j) == [k |-> k, a |-> a, j |-> j]   \* j: trailing junk tokens on the li
 Alphabet ==
   {L("if", c, FALSE) : c \in Conds} \cup {L("elif", c, FALSE) : c \in Conds} \cup
   {L(k, "", j) : k \in {"ifdef", "ifndef", "else", "endif", "undef"}, j \in BOOLEAN} \cup
-  {L("def", v, FALSE) : v \in {"0", "1"}} \cup {L("text", "", FALSE)}
+  {L("def", v, FALSE) : v \in {"0", "1"}} \cup {L("text", "", FALSE)} \cup
+  {L(k, "", FALSE) : k \in {"line", "pragma", "null", "error"}}
+Neutral == {"line", "pragma", "null", "error"}       \* directives without effect on the selection
 AlphaSeq == SetToSeq(Alphabet)
 
 (* the macro table is the state of the single macro X: "u" (undefined), "0", "1" *)
@@ -63,6 +76,7 @@ AWellFormed(a, l) ==            \* well-nested continuation (ill-nested input be
   CASE IsIf(l) -> Len(a.stk) < MaxDepth
     [] l.k \in {"elif", "else"} -> Len(a.stk) > 0 /\ ~Top(a.stk).els
     [] l.k = "endif" -> Len(a.stk) > 0
+    [] l.k = "error" -> ~AllActive(a.stk)          \* in a processed group #error is a diagnostic (C13)
     [] OTHER -> TRUE
 
 ANext(a, l) ==
@@ -82,6 +96,7 @@ ANext(a, l) ==
     [] l.k = "def"   -> [stk |-> a.stk, mac |-> IF act THEN l.a ELSE a.mac, out |-> <<>>]
     [] l.k = "undef" -> [stk |-> a.stk, mac |-> IF act THEN "u" ELSE a.mac, out |-> <<>>]
     [] l.k = "text"  -> [stk |-> a.stk, mac |-> a.mac, out |-> IF act THEN <<"T">> ELSE <<>>]
+    [] l.k \in Neutral -> [stk |-> a.stk, mac |-> a.mac, out |-> <<>>]
 
 (* ---- Level I ----------------------------------------------------------- *)
 (* state: [ci: Seq([ctx, inc]), skip, mac].  skip_line(tok): pinned = identity, so the junk
@@ -108,6 +123,10 @@ IDirective(ci, mac, l) ==
     [] l.k = "def"   -> [ci |-> ci, skip |-> 0, mac |-> l.a, out |-> <<>>]
     [] l.k = "undef" -> [ci |-> ci, skip |-> 0, mac |-> "u", out |-> Junk(l, FALSE)]
     [] l.k = "text"  -> [ci |-> ci, skip |-> 0, mac |-> mac, out |-> <<"T">>]
+    [] l.k = "line"  ->       \* read_line_marker: preprocess() ends with `if (cond_incl) error_tok(...)`
+         [ci |-> ci, skip |-> 0, mac |-> mac, out |-> IF ~FixLineInGroup /\ ci # <<>> THEN <<"REJECTED">> ELSE <<>>]
+    [] l.k \in {"pragma", "null"} -> [ci |-> ci, skip |-> 0, mac |-> mac, out |-> <<>>]
+    [] l.k = "error" -> [ci |-> ci, skip |-> 0, mac |-> mac, out |-> <<"REJECTED">>]     \* (never reached: AWellFormed)
 
 INext(s, l) ==
   IF s.skip = 0 THEN IDirective(s.ci, s.mac, l)
